@@ -601,7 +601,19 @@ var stdExternals = map[string]externalFn{
 		return seqEqual(fr, bytesOf(args[0]), bytesOf(args[1]))
 	},
 	"internal/bytealg.MakeNoZero": func(fr *frame, args []value) value {
+		if t, ok := args[0].(*Term); ok {
+			tt := fr.tt()
+			if fr.toBool(fr.vBool(tt.Mk(OSlt, sortBool, 0, tt.BV(64, 1<<40), t))) {
+				panic(pathEnd{stViolation, "allocation size controlled by input can exceed 2^40 elements (MakeNoZero from " + fr.callerPos() + ")"})
+			}
+			if fr.toBool(fr.vBool(tt.Mk(OSlt, sortBool, 0, tt.BV(64, 1<<12), t))) {
+				panic(pathEnd{stUnsupported, "symbolic allocation size between 2^12 and 2^40 (MakeNoZero): bound it in the harness"})
+			}
+		}
 		n := int(fr.toInt(args[0], nil))
+		if n > maxAlloc {
+			panic(pathEnd{stViolation, fmt.Sprintf("huge allocation request: %d bytes", n)})
+		}
 		out := make([]value, n)
 		for i := range out {
 			out[i] = uint8(0)
